@@ -7,15 +7,19 @@ import LDEval.Obligations.Expected
 
 namespace LD.Obligations
 
-theorem error_types : Generated.errorTypes = Expected.errorTypes := rfl
-theorem error_kinds : Generated.errorKinds = Expected.errorKinds := rfl
-/-- Every error type except the bare segment-cycle error has an errorKind method, and every such
-method returns MALFORMED_FLAG (model: `EvalErr.kind`). -/
-theorem all_malformed : ∀ p ∈ Generated.errorKinds, p.2 = "EvalErrorMalformedFlag" := by decide
+theorem error_messages : Generated.errorMessages = Expected.errorMessages := rfl
+/-- Every error type of the evaluation package (identified by its message) that has an errorKind
+method returns MALFORMED_FLAG (model: `EvalErr.kind`), and exactly one — the bare segment-cycle
+error — has none. -/
+theorem all_malformed : ∀ p ∈ Generated.errorMessages,
+    p.2 = "MALFORMED_FLAG" ∨ p.2 = "<no errorKind method>" := by decide
 theorem only_segment_cycle_lacks_kind :
-    Generated.errorTypes.filter (fun t => !(Generated.errorKinds.map (·.1)).contains t) =
-      ["circularSegmentReferenceError"] := by decide
-theorem fallback_kind : Generated.errorKindFallback = "EvalErrorException" := rfl
+    (Generated.errorMessages.filter (fun p => p.2 == "<no errorKind method>")).map (·.1) =
+      ["segment rule referencing segment %q caused a circular reference; this is probably a temporary condition due to an incomplete update"] := by
+  decide +kernel
+/-- An error that is not one of the package's own types is reported as EXCEPTION, and that is the only
+constant `errorKindForError` can return by itself. -/
+theorem fallback_kind : Generated.errorKindFallback = "EXCEPTION" := rfl
 theorem context_gate_first : Generated.evaluateFirstCheck = Expected.evaluateFirstCheck := rfl
 
 end LD.Obligations
